@@ -297,6 +297,11 @@ pub fn recover(dir: &Path, policy: Policy, key: u64) -> (Recovered, Option<Sut>,
 
 /// `wipe = false` keeps the shim's fd/path tables (another log is still open elsewhere).
 pub fn recover_opts(dir: &Path, policy: Policy, key: u64, wipe: bool) -> (Recovered, Option<Sut>, Vec<Ev>) {
+    recover_faulted(dir, policy, key, wipe, None)
+}
+
+/// Like `recover_opts`, with the `nth` traced call of `class` failing once with `errno`.
+pub fn recover_faulted(dir: &Path, policy: Policy, key: u64, wipe: bool, fault: Option<(usize, i64, i32)>) -> (Recovered, Option<Sut>, Vec<Ev>) {
     if wipe {
         shim::reset_all();
     } else {
@@ -304,6 +309,9 @@ pub fn recover_opts(dir: &Path, policy: Policy, key: u64, wipe: bool) -> (Recove
     }
     shim::set_root(dir);
     shim::budget(RECOVERY_CALL_BUDGET);
+    if let Some((class, nth, errno)) = fault {
+        shim::fault(class, nth, errno, false);
+    }
     let r = catch_unwind(AssertUnwindSafe(|| Sut::open(dir, policy, key, true)));
     shim::pause(true);
     shim::budget(-1);
